@@ -118,6 +118,10 @@ fn op_variants(k: &OpKind) -> Vec<OpKind> {
         OpKind::ByRef(inner) => out.push((**inner).clone()),
         OpKind::CreateNow(c) => out.extend(drop_each(c).into_iter().map(OpKind::CreateNow)),
         OpKind::BuilderDropped(c) => out.extend(drop_each(c).into_iter().map(OpKind::BuilderDropped)),
+        OpKind::BuilderUnwound(c) => {
+            out.extend(drop_each(c).into_iter().map(OpKind::BuilderUnwound));
+            out.push(OpKind::BuilderDropped(c.clone()));
+        }
         OpKind::CreateIterNow(n) if *n > 1 => out.push(OpKind::CreateIterNow(n - 1)),
         OpKind::CreateIterDeferred(n) if *n > 1 => out.push(OpKind::CreateIterDeferred(n - 1)),
         OpKind::CreateDeferred { via, comps, dropped } => {
